@@ -58,6 +58,8 @@ type vfWorldCfg struct {
 	Revocation string `json:"revocation,omitempty"`
 	// X-Forwarded-Proto carried by every request of this world that does not set its own ("" = none)
 	ClientProto string `json:"client_proto,omitempty"`
+	// the deployment's and the foreign deployment's session keys are long (> 100 bytes) and differ only near the end
+	LongKeys bool `json:"long_keys,omitempty"`
 }
 
 const (
@@ -66,6 +68,9 @@ const (
 	vfClientID     = "vf-client"
 	vfKeyA         = "vf-session-key-A-0123456789abcdef0123456789abcdef"
 	vfKeyB         = "vf-session-key-B-fedcba9876543210fedcba9876543210"
+	vfKeyLongBase  = "vf-long-session-key/0123456789abcdef0123456789abcdef0123456789abcdef0123456789abcdef0123456789abcdef0123456789abcdef/0123456789"
+	vfKeyLongA     = vfKeyLongBase + "-production"
+	vfKeyLongB     = vfKeyLongBase + "-staging"
 )
 
 // ---- downstream recorder
@@ -115,6 +120,7 @@ type vfWorld struct {
 	tmplRows  []string
 	incoming  []string // return URIs seen in main cookies
 	ownCodecs map[string][]securecookie.Codec
+	origin    map[string]int // cookie value -> who produced it: 1 the deployment (any instance with its key), 2 the foreign deployment
 	decodeFallback bool // cookies are read through the deployment's own codec (see codecsFor)
 }
 
@@ -228,8 +234,35 @@ func (w *vfWorld) newInstance(key string) (*TraefikOidc, *vfDownstream) {
 }
 
 // addInstance creates a new instance in the given slot (replacing the one there)
+func (w *vfWorld) keyA() string {
+	if w.cfg.LongKeys {
+		return vfKeyLongA
+	}
+	return vfKeyA
+}
+
+func (w *vfWorld) keyB() string {
+	if w.cfg.LongKeys {
+		return vfKeyLongB
+	}
+	return vfKeyB
+}
+
+// noteOrigin remembers which deployment produced a cookie value (values of unknown origin are
+// modifications made by the harness: they are never genuine, whatever a codec says about them)
+func (w *vfWorld) noteOrigin(value string, who int) {
+	if w.origin == nil {
+		w.origin = map[string]int{}
+	}
+	if value != "" {
+		if _, seen := w.origin[value]; !seen {
+			w.origin[value] = who
+		}
+	}
+}
+
 func (w *vfWorld) addInstance(slot int) {
-	t, down := w.newInstance(vfKeyA)
+	t, down := w.newInstance(w.keyA())
 	in := &vfInstance{t: t, down: down, idx: len(w.insts)}
 	w.insts = append(w.insts, in)
 	for len(w.slots) <= slot {
@@ -247,7 +280,7 @@ func (w *vfWorld) inst(slot int) *vfInstance {
 
 func (w *vfWorld) foreignInstance() *TraefikOidc {
 	if w.foreign == nil {
-		w.foreign, _ = w.newInstance(vfKeyB)
+		w.foreign, _ = w.newInstance(w.keyB())
 	}
 	return w.foreign
 }
@@ -406,11 +439,25 @@ func (w *vfWorld) decodeCookie(name, value string) (keyid int, asName string, va
 	}
 	deps := []dep{}
 	if len(w.insts) > 0 {
-		deps = append(deps, dep{1, w.codecsFor(vfKeyA, w.insts[0].t)})
+		deps = append(deps, dep{1, w.codecsFor(w.keyA(), w.insts[0].t)})
 	}
 	if w.foreign != nil {
-		deps = append(deps, dep{2, w.codecsFor(vfKeyB, w.foreign)})
+		deps = append(deps, dep{2, w.codecsFor(w.keyB(), w.foreign)})
 	}
+	// the origin of a value decides whose cookie it is, not the codec that happens to open it: a value the
+	// harness made up or modified belongs to nobody, a value minted by the foreign deployment stays foreign
+	// even if the deployment's codec opens it (two keys the code fails to tell apart)
+	who, known := w.origin[value]
+	if !known {
+		return 0, "", nil, false
+	}
+	var mine []dep
+	for _, d := range deps {
+		if d.id == who {
+			mine = append(mine, d)
+		}
+	}
+	deps = mine
 	names := append([]string{name}, w.candidateNames()...)
 	for _, d := range deps {
 		for _, n := range names {
@@ -772,6 +819,7 @@ func (w *vfWorld) do(rq vfReq) *vfObserved {
 		} else {
 			b.jar[c.Name] = c.Value
 		}
+		w.noteOrigin(c.Value, 1)
 	}
 	// remember the authorization redirect
 	if obs.Status == 302 && strings.HasPrefix(obs.Location, w.prov.issuer+"/authorize") {
